@@ -316,7 +316,8 @@ def gen_plan(profile, seed, tier="quick"):
                              "mask": mask, "perturb": _pick(rng, [0.0, 0.0, 0.5]),
                              "rg_low": rg_low, "rg_high": rg_high, "grad_mode": gm,
                              "seed": rng.randrange(1 << 30), "i6": rng.random() < 0.3,
-                             "as_tuple": rng.random() < 0.2, "low_view": rng.random() < 0.2})
+                             "as_tuple": rng.random() < 0.2, "low_view": rng.random() < 0.2,
+                             "high_view": rng.random() < 0.15})
                 regs[c].append((out, catalog.INV_OF[f], "inv",
                                 (rg_low or rg_high) and gm in ("ambient", "enable_grad")))
                 if rng.random() < 0.35:
@@ -383,7 +384,10 @@ def gen_plan(profile, seed, tier="quick"):
                     nm, ld = _pick(rng, tables.ALL_NAMES), _pick(rng, tables.LOADERS)
                 else:
                     nm, ld = _pick(rng, tables.INVALID), _pick(rng, tables.LOADERS)
-                prog.append({"op": "load", "id": new_id(), "loader": ld, "name": nm})
+                lop = {"op": "load", "id": new_id(), "loader": ld, "name": nm}
+                if rng.random() < 0.12:
+                    lop["form"] = _pick(rng, ["npstr", "strsub", "upper", "padded", "suffixed"])
+                prog.append(lop)
             elif k == "extra":
                 prog.append({"op": "extra", "id": new_id(), "index": rng.randrange(8),
                              "name": _pick(rng, tables.ALL_NAMES), "flip": rng.randrange(8)})
